@@ -23,8 +23,8 @@ DESIGN_REF = "DESIGN.md §5 C08"
 MODULES = ["TypelibModel.Props.C08", "TypelibModel.Props.Dispatch"]
 TABLES = True
 RULE = ("ordered member tuples of length 2-4 (permutations, None at every position, Union / Optional / X|Y spellings) over a pool of "
-        "12 member types incl. int, str, float, Decimal, date, datetime, UUID, list[int], dict[str,int], a dataclass, an Enum, a "
-        "Literal; inputs from the C03 junk pool plus valid values of each member plus boundary numbers (inf, nan, Decimal Infinity, "
+        "16 member types incl. int, str, float, Decimal, date, datetime, UUID, list[int], dict[str,int], a dataclass, an Enum, a "
+        "Literal, and four that contain another member (dict[str, list[int]], list[list[int]], dict[str, dict[str,int]], tuple[list[int], int]); inputs from the C03 junk pool plus valid values of each member plus boundary numbers (inf, nan, Decimal Infinity, "
         "10**400, undecodable bytes) that members reject with exceptions other than ValueError/TypeError; one union per forked child")
 ASSUMPTIONS = ["a member 'accepts' x when its own routine, obtained independently, returns without raising"]
 TRUSTED = ["harness encoders/generators", "hand-written model tied by correspondence"]
@@ -39,9 +39,13 @@ POOL_PROG = {
     "aliases": {},
 }
 POOL = [["int"], ["str"], ["float"], ["decimal"], ["date"], ["datetime"], ["uuid"], ["coll", "list", ["int"]],
-        ["dict", ["str"], ["int"]], ["cls", 1], ["enum", 0], ["lit", [1, "a"]]]
+        ["dict", ["str"], ["int"]], ["cls", 1], ["enum", 0], ["lit", [1, "a"]],
+        # members that CONTAIN another member of the pool (one anonymous type at two depths of the same union)
+        ["dict", ["str"], ["coll", "list", ["int"]]], ["coll", "list", ["coll", "list", ["int"]]],
+        ["dict", ["str"], ["dict", ["str"], ["int"]]], ["tuple", [["coll", "list", ["int"]], ["int"]]]]
 INPUTS = [None, 0, 5, True, ["f", "1.5"], "5", "abc", "1.5", "null", "2020-01-02", "2020-01-02T03:04:05+00:00", "g", "a", 1,
           "00000000-0000-0000-0000-000000000005", ["l", [1, 2]], ["l", ["1", "x"]], "[1, 2]", ["d", [["a", 1]]], '{"x": 1, "y": 2}',
+          ["d", [["a", ["l", [1, "2"]]]]], ["l", [["l", ["1"]], ["l", [2, 3]]]], ["d", [["k", ["d", [["a", "1"]]]]]], ["t", [["l", ["4"]], "5"]],
           ["d", [["x", "1"], ["y", 2]]], ["o", 1, [["x", 1], ["y", 2]]], ["m", 0, 0], ["dec", "2.5"], ["date", 737426],
           ["dt", 1577934245000006, 0], ["uuid", 7], ["b", "bytes", "7"], ["x", "opaque"], ["l", []], ["d", []], "", ["t", [1, 2]],
           # boundary numbers: members reject them with other exception classes (OverflowError, InvalidOperation, ...)
